@@ -6,7 +6,7 @@ from mir2smt.exec import OpaqueV, IntV, BoolV, AggV, EnumV, RefV, UNIT, Stop, mk
 from mir2smt import envlib as E
 from mir2smt.builtins import deref
 
-CRATES = ["ckb-constant", "ckb-occupied-capacity-core", "ckb-types", "ckb-shared", "ckb-sync"]
+CRATES = ["ckb-constant", "ckb-occupied-capacity-core", "ckb-types", "ckb-shared", "ckb-sync", "ckb-chain"]
 U64 = (1 << 64) - 1
 I63 = (1 << 63) - 1
 
@@ -665,7 +665,134 @@ def m7_inflight_timeout_releases_both_sides(S):
     S.witness(ctx, ob, "reach_release_without_punishment", pre, T.and_(when("peer_hashes_remove"), T.not_(punish.t)))
 
 
-OBLIGATIONS = [m1_skip_height, m2_ancestor_step, m3_header_view_codec, m4_locator, m5_fast_path_reads_one_snapshot, m6_header_map_two_tiers_refine_a_plain_map, m7_inflight_timeout_releases_both_sides]
+def m8_orphan_pool_release(S):
+    """`InnerPool::insert` x n then `remove_blocks_by_parent` / `get_block` (chain/src/utils/orphan_block_pool.rs) with the three hash containers modelled as association lists
+    with SYMBOLIC keys (mir2smt/symmap.py): every hash and parent hash of the n inserted blocks and the released hash are symbols, each container lookup forks on key equality and
+    the solver prunes, so the obligations hold for EVERY shape of the parent relation over n blocks (chains, forks, unrelated blocks, children inserted before parents) and every
+    release point.  Decided: after the inserts the pool holds exactly the inserted blocks with their parents and its leaders are exactly the parents that are not themselves
+    pooled; releasing a leader returns exactly its pooled descendants, each once, and keeps exactly the rest (with their leaders); releasing a hash that is not a leader
+    returns nothing and changes nothing; `get_block` answers exactly for pooled hashes with the block stored under that hash."""
+    from mir2smt import symmap as SM
+    from mir2smt.exec import Driver, ListV, post_value
+    from mir2smt.srcinfo import field_index
+    ob = "C17.m8"
+    FI = field_index("chain/src/utils/orphan_block_pool.rs", "InnerPool")
+    imp = r"orphan_block_pool::<impl at chain/src/utils/orphan_block_pool.rs:\d+:1: \d+:15>::"
+    fn = lambda short, np: _one(S, lambda x: re.search(imp + short + "$", x.name) and len(x.params) == np, "InnerPool::" + short)
+    f_ins, f_rem, f_get = fn("insert", 2), fn("remove_blocks_by_parent", 2), fn("get_block", 2)
+    for n in ((2, 3) if S.tier == "quick" else (2, 3, 4)):
+        ctx = S.ctx(unwind=2 * n + 6)
+        ctx.uninterpreted_unknown_calls = True
+        ctx.prune_with_solver = True
+        ctx.max_paths = 60000
+        h = [ctx.int(f"id!hash_b{i}", "u64").t for i in range(n)]
+        p = [ctx.int(f"id!parent_b{i}", "u64").t for i in range(n)]
+        r = ctx.int("id!release", "u64").t
+        ht = [ctx.int(f"height_b{i}", "u64").t for i in range(n)]
+        # real blocks: different blocks have different hashes, and the parent relation is acyclic (a hash commits to the parent hash)
+        side = [T.ne(h[i], h[j]) for i in range(n) for j in range(i)] + [T.implies(T.eq(p[i], h[j]), T.gt(ht[i], ht[j])) for i in range(n) for j in range(n)]
+        for c_ in side:
+            ctx.add_side(c_)
+        pool = ctx.ref_to(AggV(tuple({"blocks": SM.MapV((), "HashMap<Byte32, HashMap<Byte32, LonelyBlockHash>>"), "parents": SM.MapV((), "HashMap<Byte32, Byte32>"),
+                                     "leaders": SM.MapV((), "HashSet<Byte32>", True)}[k] for k, _ in sorted(FI.items(), key=lambda kv: kv[1])), "InnerPool"))
+        blocks = [OpaqueV(f"b{i}", "LonelyBlockHash") for i in range(n)]
+        snap = {}
+
+        def who(ex, v):
+            return re.sub(r"\..*$", "", getattr(deref(ex, v), "name", "?"))
+        ctx.env = list(E.LOGGING_OFF) + [
+            (E.rx(r"LonelyBlockHash::hash$"), lambda ex, c, a, d: OpaqueV("hash_" + who(ex, a[0]), d)),
+            (E.rx(r"LonelyBlockHash::parent_hash$"), lambda ex, c, a, d: OpaqueV("parent_" + who(ex, a[0]), d)),
+            (E.rx(r"<Byte32 as (Clone|ToOwned)>::(clone|to_owned)$"), lambda ex, c, a, d: deref(ex, a[0])),
+        ] + SM.handlers(r"Byte32") + SM.EXTRAS + list(E.LIST_ADAPTORS)
+
+        def body(ex):
+            for b in blocks:
+                ex.call_function(f_ins, [pool, b])
+            st = deref(ex, pool)
+            mid = _pool_state(ex, st, FI)
+            got = ex.call_function(f_get, [pool, ex.ctx.ref_to(OpaqueV("release", "Byte32"))])
+            out = ex.call_function(f_rem, [pool, ex.ctx.ref_to(OpaqueV("release", "Byte32"))])
+            gd = got.disc if isinstance(got, EnumV) and isinstance(got.disc, int) else None
+            gname = getattr(deref(ex, got.payload(1)[0]), "name", None) if gd == 1 else None
+            return AggV((ListV(tuple(out.items), "ret") if isinstance(out, ListV) else out, (gd, gname)), "(removed, get)"), mid, _pool_state(ex, deref(ex, pool), FI)
+        ps = S.run(ctx, Driver(f"orphan_pool_{n}_inserts_then_release", body), [])
+        tag = f"{n}_blocks"
+        S.prove(ctx, ob, f"{tag}_no_panic", [], T.not_(cond_of(panics(ps))))
+        rs = returns(ps)
+        S.prove(ctx, ob, f"{tag}_explored", [], bool(len(rs) >= n))
+        pooled = lambda x: T.or_(*[T.eq(x, h[j]) for j in range(n)])
+        # descendants of r among the pooled blocks: depth-bounded closure (depth <= n suffices for n blocks)
+        desc = [T.eq(p[i], r) for i in range(n)]
+        for _ in range(n):
+            desc = [T.or_(T.eq(p[i], r), *[T.and_(T.eq(p[i], h[j]), desc[j]) for j in range(n) if j != i]) for i in range(n)]
+        is_leader = T.and_(T.not_(pooled(r)), T.or_(*[T.eq(p[i], r) for i in range(n)]))
+        g_mid, g_ret, g_keep, g_get = [], [], [], []
+        for pth in rs:
+            (val, mid, fin) = pth.value
+            removed, got = val.fields
+            c = pth.cond()
+            # --- state after the inserts: exactly the inserted blocks; leaders = parents that are not pooled
+            ok_mid = (sorted(mid["parents"]) == sorted((str(h[i]), f"parent_b{i}") for i in range(n)) and sorted(x for g in mid["blocks"].values() for x in g) == sorted((str(h[i]), f"b{i}") for i in range(n)))
+            g_mid.append(T.implies(c, T.and_(bool(ok_mid),
+                                             *[T.iff(T.or_(*[T.eq(p[i], _kt(ctx, k)) for k in mid["leaders"]]) if mid["leaders"] else False, T.not_(pooled(p[i]))) for i in range(n)],
+                                             *[T.or_(*[T.eq(_kt(ctx, k), p[i]) for i in range(n)]) for k in mid["leaders"]],
+                                             *[T.eq(_kt(ctx, gk), p[int(bname[1:])]) for gk, grp in mid["blocks"].items() for _, bname in grp])))
+            # --- what is returned
+            names = [getattr(x, "name", "?") for x in removed.items] if isinstance(removed, ListV) else None
+            if names is None or len(set(names)) != len(names):
+                g_ret.append(T.not_(c))
+                continue
+            g_ret.append(T.implies(c, T.and_(*[T.iff(bool(f"b{i}" in names), T.and_(is_leader, desc[i])) for i in range(n)])))
+            # --- what stays
+            kept = sorted(x for g in fin["blocks"].values() for x in g)
+            want_kept = sorted((str(h[i]), f"b{i}") for i in range(n) if f"b{i}" not in names)
+            g_keep.append(T.implies(c, T.and_(bool(kept == want_kept and sorted(fin["parents"]) == sorted((str(h[i]), f"parent_b{i}") for i in range(n) if f"b{i}" not in names)),
+                                              *[T.implies(bool(f"b{i}" not in names), T.iff(T.or_(*[T.eq(p[i], _kt(ctx, k)) for k in fin["leaders"]]) if fin["leaders"] else False, T.not_(T.or_(*[T.eq(p[i], h[j]) for j in range(n) if f"b{j}" not in names]) if [j for j in range(n) if f"b{j}" not in names] else False))) for i in range(n)],
+                                              *[T.or_(*[T.and_(T.eq(_kt(ctx, k), p[i]), bool(f"b{i}" not in names)) for i in range(n)]) for k in fin["leaders"]])))
+            # --- get_block before the release
+            gd, gname = got
+            if gd is not None:
+                g_get.append(T.implies(c, T.and_(T.iff(bool(gd == 1), pooled(r)), *[T.implies(T.eq(r, h[i]), bool(gname == f"b{i}")) for i in range(n)])))
+            else:
+                g_get.append(T.not_(c))
+        S.prove(ctx, ob, f"{tag}_after_inserts_pool_holds_exactly_the_blocks_and_leaders_are_the_absent_parents", [], T.and_(*g_mid))
+        S.prove(ctx, ob, f"{tag}_release_returns_exactly_the_descendants_of_a_leader_each_once_and_nothing_otherwise", [], T.and_(*g_ret))
+        S.prove(ctx, ob, f"{tag}_release_keeps_exactly_the_rest_with_its_leaders", [], T.and_(*g_keep))
+        S.prove(ctx, ob, f"{tag}_get_block_answers_exactly_for_pooled_hashes_with_that_block", [], T.and_(*g_get))
+        S.witness(ctx, ob, f"{tag}_reach_chain_released_from_its_root", [], T.and_(is_leader, *[desc[i] for i in range(n)], *[T.eq(p[i], h[i - 1]) for i in range(1, n)]))
+        S.witness(ctx, ob, f"{tag}_reach_child_inserted_before_parent", [], T.and_(is_leader, T.eq(p[0], h[1]), desc[0]))
+
+
+def _kt(ctx, k):
+    """key term from its printed form (a variable name)"""
+    return ctx.int(k, "u64").t
+
+
+def _one(S, pred, what):
+    f = [x for x in S.prog.funcs if x.kind == "fn" and pred(x)]
+    if len(f) != 1:
+        raise Inconclusive(f"{what}: {len(f)} candidates")
+    return f[0]
+
+
+def _pool_state(ex, st, FI):
+    """python snapshot of the three containers: key terms are variables `id!...`, printed by name"""
+    from mir2smt import symmap as SM
+    kn = lambda t: t[2] if isinstance(t, tuple) and t[0] == "var" else str(t)
+    blocks = st.fields[FI["blocks"]]
+    out = {"blocks": {}, "parents": [], "leaders": []}
+    for k, cell, kv in blocks.items:
+        inner = deref(ex, cell)
+        out["blocks"][kn(k)] = [(str(k2), getattr(deref(ex, c2), "name", "?")) for k2, c2, _ in inner.items]
+    for k, cell, kv in st.fields[FI["parents"]].items:
+        out["parents"].append((str(k), getattr(deref(ex, cell), "name", "?")))
+    for k, cell, kv in st.fields[FI["leaders"]].items:
+        out["leaders"].append(kn(k))
+    return out
+
+
+OBLIGATIONS = [m1_skip_height, m2_ancestor_step, m3_header_view_codec, m4_locator, m5_fast_path_reads_one_snapshot, m6_header_map_two_tiers_refine_a_plain_map, m7_inflight_timeout_releases_both_sides, m8_orphan_pool_release]
 
 ENGINE = "M"
 LEVEL = "other"
